@@ -204,6 +204,67 @@ theorem run_not_blocked (pt : Port) (hl : pt.Lawful) (s : State) (ops : List Op)
   | nil => rfl
   | cons op ops ih => rw [run_cons, anyBlocked_cons, step_not_blocked pt hl, ih]; rfl
 
+/-! ### the line settings -/
+
+/-- an 8N1 line without flow control hands over every byte value unchanged -/
+theorem Line.carry_of_is8N1 (l : Line) (h : l.is8N1 = true) (b : Nat) (hb : b < 256) : l.carry b = some b := by
+  simp only [Line.is8N1, Bool.and_eq_true, beq_iff_eq, Bool.not_eq_eq_eq_not, Bool.not_true] at h
+  obtain ⟨⟨⟨⟨⟨h8, _⟩, _⟩, hx⟩, _⟩, _⟩ := h
+  simp only [Line.carry, hx, h8, Bool.false_and, Bool.false_eq_true, if_false]
+  congr 1
+  exact Nat.mod_eq_of_lt hb
+
+/-- exactly the lines with at least 8 data bits and without software flow control hand over all 256 byte
+    values unchanged (fewer data bits lose the top bit of 0xff, XON/XOFF swallows 0x11 and 0x13) -/
+theorem Line.carry_all_iff (l : Line) :
+    (∀ b, b < 256 → l.carry b = some b) ↔ (8 ≤ l.dataBits ∧ l.xonxoff = false) := by
+  constructor
+  · intro h
+    have hx : l.xonxoff = false := by
+      cases hxx : l.xonxoff with
+      | false => rfl
+      | true =>
+        have := h 0x11 (by decide)
+        simp [Line.carry, hxx] at this
+    refine ⟨?_, hx⟩
+    have h255 := h 255 (by decide)
+    simp only [Line.carry, hx, Bool.false_and, Bool.false_eq_true, if_false, Option.some.injEq] at h255
+    apply Decidable.byContradiction
+    intro hlt
+    have hk : l.dataBits ≤ 7 := by omega
+    have : 2 ^ l.dataBits ≤ 2 ^ 7 := Nat.pow_le_pow_right (by decide) hk
+    have hpos : 0 < 2 ^ l.dataBits := Nat.pow_pos (by decide)
+    have := Nat.mod_lt 255 hpos
+    omega
+  · rintro ⟨h8, hx⟩ b hb
+    simp only [Line.carry, hx, Bool.false_and, Bool.false_eq_true, if_false]
+    congr 1
+    apply Nat.mod_eq_of_lt
+    have : 2 ^ 8 ≤ 2 ^ l.dataBits := Nat.pow_le_pow_right (by decide) h8
+    omega
+
+/-- a write that fits into the free room of the OS buffer plus what the line takes within the write
+    timeout is handed over whole -/
+theorem writeAccepted_of_le (room rate t n : Nat) (h : n ≤ room + rate * t) :
+    writeAccepted room rate (some t) n = n := by
+  simp only [writeAccepted]; omega
+
+/-- a longer one is cut (and, for `t > 0`, pyserial raises `SerialTimeoutException`) -/
+theorem writeAccepted_of_gt (room rate t n : Nat) (h : room + rate * t < n) :
+    writeAccepted room rate (some t) n = room + rate * t := by
+  simp only [writeAccepted]; omega
+
+/-- `data_align` adds fewer than `p` bytes -/
+theorem dataAlign_length_le (p : Nat) (d : Bytes) : (Pad.dataAlign p d).length ≤ d.length + (p - 1) := by
+  unfold Pad.dataAlign
+  by_cases hp : p = 0
+  · simp [hp]
+  · by_cases hm : d.length % p = 0
+    · simp [hp, hm]
+    · have : 0 < d.length % p := Nat.pos_of_ne_zero hm
+      simp only [ne_eq, hp, not_false_eq_true, if_true, hm, List.length_append, List.length_replicate]
+      omega
+
 /-- the port interface of the working tree is lawful: the size it asks for is never more than what
     is waiting, and never zero when something is waiting -/
 theorem Port.real_lawful : Port.real.Lawful where
